@@ -51,9 +51,13 @@ fn nullable_head(rng: &mut Rng) -> Expr {
 /// A context with a hole at a leftmost position: wraps a reference so that it can be reached
 /// without consuming input.
 fn leftmost_context(rng: &mut Rng, hole: Expr, depth: usize) -> Expr {
+    leftmost_context2(rng, hole, depth, true)
+}
+
+fn leftmost_context2(rng: &mut Rng, hole: Expr, depth: usize, allow_consuming_head: bool) -> Expr {
     let t = || s("x");
-    let inner = if depth > 0 && rng.chance(1, 3) { leftmost_context(rng, hole, depth - 1) } else { hole };
-    match rng.below(25) {
+    let inner = if depth > 0 && rng.chance(1, 3) { leftmost_context2(rng, hole, depth - 1, allow_consuming_head) } else { hole };
+    match rng.below(if allow_consuming_head { 25 } else { 22 }) {
         22 | 23 | 24 => seq(s("x"), inner),
         0 => inner,
         1 => seq(Expr::Opt(b(inner)), t()),
@@ -105,11 +109,13 @@ fn any_ty(rng: &mut Rng) -> RuleType {
 
 /// Recursion-skewed grammars: a cycle r0 -> r1 -> .. -> r0 through leftmost contexts.
 fn gen_cycle(rng: &mut Rng) -> Vec<Rule> {
-    let k = 1 + rng.below(3);
+    // mostly short cycles; now and then a long chain (a precedence tower of dozens of rules)
+    let k = if rng.chance(1, 60) { 30 + rng.below(90) } else { 1 + rng.below(3) };
     let mut rules = vec![];
     for i in 0..k {
         let next = format!("r{}", (i + 1) % k);
-        let e = leftmost_context(rng, id(&next), 2);
+        // in a long chain every link stays leftmost (one consuming head would break the cycle)
+        let e = if k > 3 { leftmost_context2(rng, id(&next), 0, false) } else { leftmost_context(rng, id(&next), 2) };
         let e = if rng.chance(1, 3) { Expr::Choice(b(s("q")), b(e)) } else { e };
         rules.push(Rule { name: format!("r{i}"), ty: any_ty(rng), expr: e });
     }
@@ -148,6 +154,29 @@ fn gen_stuck_rep(rng: &mut Rng) -> Vec<Rule> {
         2 => Expr::RepMin(b(body), rng.below(3) as u32),
         _ => seq(Expr::Rep(b(body)), s("z")),
     };
+    // anywhere in an expression: the validator has to look inside every operator
+    let rep = match rng.below(14) {
+        0 => Expr::RepMax(b(seq(rep, s("n"))), 3),
+        1 => Expr::RepExact(b(rep), 2),
+        2 => Expr::RepMinMax(b(seq(s("k"), rep)), 1, 3),
+        3 => Expr::Opt(b(seq(rep, s("o")))),
+        4 => seq(s("p"), Expr::PosPred(b(rep))),
+        5 => seq(Expr::NegPred(b(seq(rep, s("q")))), s("x")),
+        6 => Expr::Choice(b(s("c")), b(seq(rep, s("d")))),
+        7 => Expr::RepMin(b(seq(s("m"), rep)), 2),
+        8 => {
+            #[cfg(feature = "grammar-extras")]
+            {
+                Expr::NodeTag(b(seq(rep, s("t"))), "t".into())
+            }
+            #[cfg(not(feature = "grammar-extras"))]
+            {
+                seq(s("u"), seq(rep, s("v")))
+            }
+        }
+        9 => Expr::RepOnce(b(seq(s("w"), rep))),
+        _ => rep,
+    };
     let as_skip = rng.chance(1, 4);
     if as_skip {
         // the implicit repetition of WHITESPACE / COMMENT
@@ -159,7 +188,8 @@ fn gen_stuck_rep(rng: &mut Rng) -> Vec<Rule> {
             _ => seq(h, nullable_head(rng)),
         };
         rules.push(Rule { name: "r0".into(), ty: any_ty(rng), expr: seq(s("a"), s("b")) });
-        rules.push(Rule { name: name.into(), ty: RuleType::Silent, expr: e });
+        let sty = *rng.pick(&[RuleType::Silent, RuleType::Silent, RuleType::Normal, RuleType::Atomic, RuleType::CompoundAtomic, RuleType::NonAtomic]);
+        rules.push(Rule { name: name.into(), ty: sty, expr: e });
     } else {
         rules.push(Rule { name: "r0".into(), ty: any_ty(rng), expr: rep });
     }
